@@ -38,6 +38,8 @@ pub struct Engine<'a> {
     pub prop: &'a str,
     pub number: u16,
     pub check_debug: bool,
+    /// C14: is `number` one of the compiled-in message features?
+    pub supported: bool,
 }
 
 fn shape_of(trace: &[(u32, u32, bool)], cls: Cls) -> u64 {
@@ -74,7 +76,7 @@ pub fn normalise_bias_order(m: &Message) -> Message {
 
 impl<'a> Engine<'a> {
     pub fn new(prop: &'a str, number: u16) -> Self {
-        Engine { crc: Crc24Table::new(), frame: Vec::with_capacity(1040), prop, number, check_debug: false }
+        Engine { crc: Crc24Table::new(), frame: Vec::with_capacity(1040), prop, number, check_debug: false, supported: true }
     }
 
     /// one execution of the real decoder on make_frame(payload[..t])
@@ -85,6 +87,9 @@ impl<'a> Engine<'a> {
         trace_start();
         let check_debug = self.check_debug;
         let want_c01 = self.prop == "C01";
+        let self_prop_c14 = self.prop == "C14";
+        let supported = self.supported;
+        let number = self.number;
         let r = catch(|| {
             let (consumed, fr) = next_msg_frame(frame);
             let fr = match fr {
@@ -99,6 +104,21 @@ impl<'a> Engine<'a> {
                 _ => Cls::Typed,
             };
             let mut problems: Vec<(&'static str, String)> = vec![];
+            if self_prop_c14 && t >= 2 {
+                // classification by message number (payload of at least two bytes)
+                let ok = if supported {
+                    match &m {
+                        Message::Corrupt => true,
+                        Message::Empty | Message::MsgNotSupported(_) => false,
+                        typed => typed.number() == Some(number),
+                    }
+                } else {
+                    matches!(&m, Message::MsgNotSupported(x) if x.message_number == number)
+                };
+                if !ok {
+                    problems.push(("C14", format!("number {} ({}) decodes to {}{}", number, if supported { "a message feature" } else { "not a feature" }, outcome_class(&m), match m.number() { Some(n) => format!(" reporting number {}", n), None => String::new() })));
+                }
+            }
             #[allow(clippy::eq_op)]
             if m != m {
                 problems.push(("C02", "decoded message does not compare equal to itself".into()));
@@ -148,7 +168,7 @@ impl<'a> Engine<'a> {
                 }
                 for (p, what) in problems {
                     if p == self.prop {
-                        let key = format!("{}:{}:{}", if p == "C01" { "fixpoint" } else { "value" }, self.number, what.chars().take(48).collect::<String>());
+                        let key = format!("{}:{}:{}", if p == "C01" { "fixpoint" } else if p == "C14" { "classify" } else { "value" }, self.number, what.chars().take(48).collect::<String>());
                         rep.violation(p, key, format!("msg {}: {}", self.number, what), t as u64, json!({"kind":"frame_decode","frame":hex(&self.frame),"desc":desc()}));
                     }
                 }
@@ -168,12 +188,17 @@ impl<'a> Engine<'a> {
                 Cls::Panic
             }
         };
-        if self.prop == "C02" {
+        if self.prop == "C02" || self.prop == "C14" {
             rep.traces += 1;
         }
         let shape = shape_of(&trace, cls);
         Run { cls, trace, shape, needed_bits: needed }
     }
+}
+
+pub fn feature_numbers_cached() -> &'static std::collections::BTreeSet<u16> {
+    static F: std::sync::OnceLock<std::collections::BTreeSet<u16>> = std::sync::OnceLock::new();
+    F.get_or_init(feature_numbers)
 }
 
 pub fn alphabet(len: u32, cur: u64, mask_like: bool) -> Vec<u64> {
@@ -307,6 +332,7 @@ struct Level1 {
 /// Explore one (number, base): levels 0, 1 and (if cap2 > 0) 2.
 pub fn explore_base(prop: &str, number: u16, base_name: &str, base: &[u8], cap2: u64, cap3: u64, truncations: bool, rep: &mut Report) {
     let mut eng = Engine::new(prop, number);
+    eng.supported = feature_numbers_cached().contains(&number);
     let id = 0x0200_0000u64 + number as u64;
     watch_enter(id);
     let mut payload = base.to_vec();
